@@ -6,8 +6,9 @@ schedule (`Run` = any finite sequence of enabled steps).
 Helper lemmas: GrcovModel/Lemmas/Pipeline.lean.
 -/
 import GrcovModel.Lemmas.Pipeline
+import GrcovModel.Lemmas.Report
 namespace Grcov.Props.C02
-open Grcov.Pipeline
+open Grcov Grcov.AList Grcov.Pipeline Grcov.Report Grcov.Props.C01
 
 /-- Conservation: in every reachable state each item is in exactly one place (still to send, in
 the queue, held by a worker, merged, rejected, or lost with a dead worker) – nothing is dropped
@@ -78,5 +79,84 @@ example : ∃ s, replay (fun _ => .ok) (init 2 false [7, 8, 9])
      .finish 1, .main, .finish 0, .main, .recv 1, .recv 0, .main, .main, .main, .main] = some s
     ∧ s.mainPc = .done 0 ∧ s.merged = [8, 7, 9] := by
   refine ⟨_, rfl, ?_, ?_⟩ <;> decide
+
+/-! ### The report: composition with the aggregation model (C01)
+
+The result map a run ends with is the left fold of `add_results` over the batches in the order in
+which the workers happened to merge them (`reportOf … s.merged`, Lemmas/Report.lean). Every entry
+of it is observably equal (`ObsEq`: line counts, branch vectors, function names and flags, as in
+C01) to the entry a single pass over the inputs in the listed order produces. -/
+
+/-- Entry `k` of the report is the aggregate of exactly the records, of exactly the merged
+artifacts, that name file `k` (after canonicalisation): nothing else flows into it. -/
+theorem C02_report_entry (canon : Key → Key) (contents : Item → List (Key × Cov))
+    (order : List Item) (k : Key) :
+    get? (reportOf canon contents order) k
+      = foldInto none (((order.flatMap contents).filter fun kc => canon kc.1 = k).map (·.2)) :=
+  report_entry canon contents order k
+
+/-- The order of merging is irrelevant to every observable of every file record. -/
+theorem C02_report_order_irrelevant (canon : Key → Key) (contents : Item → List (Key × Cov))
+    (hwf : ∀ i, ∀ kc ∈ contents i, kc.2.WF) (o₁ o₂ : List Item) (p : o₁.Perm o₂) (k : Key) :
+    ObsEqOpt (get? (reportOf canon contents o₁) k) (get? (reportOf canon contents o₂) k) :=
+  report_order_irrelevant canon contents hwf o₁ o₂ p k
+
+/-- **The report is schedule independent and equals the sequential aggregate.** For every number
+of workers, every schedule and every fault-free run that ends with status 0, each file record of
+the result map is observably the record a single pass over the inputs *in the listed order*
+produces: no artifact dropped, none counted twice, and the interleaving of the merges plays no
+role. -/
+theorem C02_report_is_aggregate (canon : Key → Key) (contents : Item → List (Key × Cov))
+    (hwf : ∀ i, ∀ kc ∈ contents i, kc.2.WF) (n : Nat) (hn : 1 ≤ n) (rx : Bool) (items : List Item)
+    (tr : List Step) (s : State) (h : Run (fun _ => Fate.ok) (init n rx items) tr s)
+    (hd : s.mainPc = .done 0) (k : Key) :
+    ObsEqOpt (get? (reportOf canon contents s.merged) k) (get? (reportOf canon contents items) k) :=
+  C02_report_order_irrelevant canon contents hwf _ _
+    (C02_exactly_once_no_faults n hn rx items tr s h hd) k
+
+/-- Two runs on the same inputs – different thread counts, different schedules, the paths listed
+in a different order – produce observably the same record for every file. -/
+theorem C02_report_schedule_independent (canon : Key → Key) (contents : Item → List (Key × Cov))
+    (hwf : ∀ i, ∀ kc ∈ contents i, kc.2.WF) (n n' : Nat) (hn : 1 ≤ n) (hn' : 1 ≤ n') (rx rx' : Bool)
+    (items items' : List Item) (p : items.Perm items') (tr tr' : List Step) (s s' : State)
+    (h : Run (fun _ => Fate.ok) (init n rx items) tr s)
+    (h' : Run (fun _ => Fate.ok) (init n' rx' items') tr' s')
+    (hd : s.mainPc = .done 0) (hd' : s'.mainPc = .done 0) (k : Key) :
+    ObsEqOpt (get? (reportOf canon contents s.merged) k)
+      (get? (reportOf canon contents s'.merged) k) :=
+  C02_report_order_irrelevant canon contents hwf _ _
+    (((C02_exactly_once_no_faults n hn rx items tr s h hd).trans p).trans
+      (C02_exactly_once_no_faults n' hn' rx' items' tr' s' h' hd').symm) k
+
+/-- With rejected inputs (C07, third sentence): the report is the sequential aggregate of the
+inputs whose parser accepted them – a rejected input contributes nothing and does not disturb
+what the others contribute. -/
+theorem C02_report_without_rejected (canon : Key → Key) (contents : Item → List (Key × Cov))
+    (hwf : ∀ i, ∀ kc ∈ contents i, kc.2.WF) (fate : Item → Fate) (n : Nat) (hn : 1 ≤ n) (rx : Bool)
+    (items : List Item) (tr : List Step) (s : State) (h : Run fate (init n rx items) tr s)
+    (hd : s.mainPc = .done 0) (k : Key) :
+    ObsEqOpt (get? (reportOf canon contents s.merged) k)
+      (get? (reportOf canon contents (items.filter fun x => fate x = .ok)) k) := by
+  obtain ⟨hp, hm, hr⟩ := C02_exactly_once fate n hn rx items tr s h hd
+  refine C02_report_order_irrelevant canon contents hwf _ _ ?_ k
+  have hf := hp.filter (fun x => fate x = .ok)
+  rw [List.filter_append] at hf
+  have e1 : s.merged.filter (fun x => fate x = .ok) = s.merged :=
+    List.filter_eq_self.mpr fun x hx => by simp [hm x hx]
+  have e2 : s.rejected.filter (fun x => fate x = .ok) = [] :=
+    List.filter_eq_nil_iff.mpr fun x hx => by simp [hr x hx]
+  rw [e1, e2, List.append_nil] at hf
+  exact hf
+
+/-- non-vacuity: two artifacts that both describe file 1, merged in either order, give the same
+line count 7 (and `WF` holds for them) -/
+example :
+    let contents : Item → List (Key × Cov) := fun i =>
+      if i = 7 then [([1], { lines := [(3, 5)], branches := [], functions := [] })]
+      else [([1], { lines := [(3, 2)], branches := [], functions := [] })]
+    (get? (reportOf id contents [7, 8]) [1]).map (fun c => get? c.lines 3) = some (some 7) ∧
+    (get? (reportOf id contents [8, 7]) [1]).map (fun c => get? c.lines 3) = some (some 7) := by
+  decide
+
 
 end Grcov.Props.C02
